@@ -276,9 +276,24 @@ class _ExprCanon(ast.NodeTransformer):
             return simplify_test(node)
         return node
 
+    @staticmethod
+    def _iter_children(it: ast.expr) -> ast.expr:
+        """`x._children or ()` / `x._children or []` as an iterated expression is the `children` property."""
+        if isinstance(it, ast.BoolOp) and isinstance(it.op, ast.Or) and len(it.values) == 2:
+            a, b = it.values
+            if isinstance(a, ast.Attribute) and a.attr == "_children" and isinstance(b, (ast.Tuple, ast.List)) and not b.elts:
+                return _loc(ast.Attribute(value=a.value, attr="children", ctx=ast.Load()), it)
+        return it
+
     def visit_comprehension(self, node: ast.comprehension):
         self.generic_visit(node)
         node.ifs = [simplify_test(t) for t in node.ifs]
+        node.iter = self._iter_children(node.iter)
+        return node
+
+    def visit_For(self, node: ast.For):
+        self.generic_visit(node)
+        node.iter = self._iter_children(node.iter)
         return node
 
     _fresh = [0]
@@ -309,6 +324,17 @@ class _ExprCanon(ast.NodeTransformer):
         if kind == "partial" and f.args and not any(isinstance(a, ast.Starred) for a in f.args) and all(k.arg is not None for k in f.keywords):
             later = {k.arg for k in node.keywords}
             return _loc(ast.Call(func=f.args[0], args=list(f.args[1:]) + list(node.args), keywords=[k for k in f.keywords if k.arg not in later] + list(node.keywords)), node)
+        # operator.is_not(a, b) -> a is not b  (and friends)
+        opname = f.attr if isinstance(f, ast.Attribute) and isinstance(f.value, ast.Name) and f.value.id == "operator" else (f.id if isinstance(f, ast.Name) and f.id in ("is_not", "is_") else None)
+        binops = {"is_": ast.Is, "is_not": ast.IsNot, "eq": ast.Eq, "ne": ast.NotEq, "lt": ast.Lt, "le": ast.LtE, "gt": ast.Gt, "ge": ast.GtE}
+        if opname in binops and len(node.args) == 2 and not node.keywords and plain:
+            return _loc(ast.Compare(left=node.args[0], ops=[binops[opname]()], comparators=[node.args[1]]), node)
+        if opname == "contains" and len(node.args) == 2 and not node.keywords and plain:
+            return _loc(ast.Compare(left=node.args[1], ops=[ast.In()], comparators=[node.args[0]]), node)
+        if opname == "not_" and len(node.args) == 1 and not node.keywords and plain:
+            return _loc(ast.UnaryOp(op=ast.Not(), operand=node.args[0]), node)
+        if opname == "getitem" and len(node.args) == 2 and not node.keywords and plain:
+            return _loc(ast.Subscript(value=node.args[0], slice=node.args[1], ctx=ast.Load()), node)
         # (lambda x: body)(arg)  with a single plain parameter used at most once, or a trivially pure argument
         if isinstance(f, ast.Lambda) and len(node.args) == 1 and not node.keywords and plain:
             a = f.args
@@ -547,6 +573,15 @@ class BlockCanon:
                     new_stmts, consumed = r
                     stmts[i : i + consumed] = new_stmts
                     continue
+                # yield from (E for X in IT if C)  ->  for X in IT: [if C:] yield E
+                if isinstance(st, ast.Expr) and isinstance(st.value, ast.YieldFrom) and isinstance(st.value.value, ast.GeneratorExp):
+                    g_ = st.value.value
+                    y_ = _loc(ast.Expr(value=_loc(ast.Yield(value=g_.elt), st)), st)
+                    lp_ = self._nest(g_.generators, [y_], st)  # type: ignore[list-item]
+                    if lp_ is not None:
+                        self.changed = True
+                        stmts[i] = lp_
+                        continue
                 # for T in (A if c else B): BODY  ->  if c: for T in A: BODY  else: for T in B: BODY
                 if isinstance(st, ast.For) and not st.orelse and isinstance(st.iter, ast.IfExp) and is_pure(st.iter.test):
                     ie_ = st.iter
@@ -1603,6 +1638,15 @@ class HelperInliner:
             return
         self_name = None
         local_defs = {n.name: n for n in _own_nodes(fn) if isinstance(n, FuncNode)}
+        # a name that is also bound in another way (`render = repr` in one branch, `def render` in the other; two defs)
+        # does not stand for that def
+        counts_: Dict[str, int] = {}
+        for n in _own_nodes(fn):
+            if isinstance(n, FuncNode):
+                counts_[n.name] = counts_.get(n.name, 0) + 1
+            elif isinstance(n, ast.Name) and isinstance(n.ctx, (ast.Store, ast.Del)):
+                counts_[n.id] = counts_.get(n.id, 0) + 1
+        local_defs = {k: v for k, v in local_defs.items() if counts_.get(k, 0) == 1 and k not in _params(fn)}
         # also closures of the enclosing function are visible: handled by caller through local_defs of parents
         local_defs.update(getattr(fn, "_outer_defs", {}))
         for n in local_defs.values():
@@ -1873,7 +1917,56 @@ class HelperInliner:
             return pre + new
         return None
 
+    def _gen_as_genexp(self, fn, call, d, recv, bound) -> Optional[ast.expr]:
+        """A new private *generator* helper of the form `for T in IT: [if C:] yield E` (nothing else) called with pure
+        arguments is the generator expression (E for T in IT if C)."""
+        if isinstance(d, ast.AsyncFunctionDef):
+            return None
+        body = [s_ for s_ in d.body if not _is_docstring(s_)]
+        if len(body) != 1 or not isinstance(body[0], ast.For) or body[0].orelse or not isinstance(body[0].target, (ast.Name, ast.Tuple)):
+            return None
+        lp = body[0]
+        inner = lp.body
+        cond = None
+        if len(inner) == 1 and isinstance(inner[0], ast.If) and not inner[0].orelse:
+            cond, inner = inner[0].test, inner[0].body
+        if not (len(inner) == 1 and isinstance(inner[0], ast.Expr) and isinstance(inner[0].value, ast.Yield) and inner[0].value.value is not None):
+            return None
+        if any(isinstance(x, (ast.Yield, ast.YieldFrom, ast.Lambda)) for x in ast.walk(inner[0].value.value)) or (cond is not None and any(isinstance(x, (ast.Yield, ast.YieldFrom)) for x in ast.walk(cond))):
+            return None
+        subst = self._bind(d, call, recv, bound)
+        if subst is None:
+            return None
+        for p_, v_ in subst.items():
+            if not is_pure(v_):
+                # an effectful argument is fine when it is the iterated expression itself (evaluated once, first)
+                uses_ = [x for x in ast.walk(d) if isinstance(x, ast.Name) and x.id == p_ and isinstance(x.ctx, ast.Load)]
+                if not (len(uses_) == 1 and uses_[0] is lp.iter):
+                    return None
+        tnames = {x.id for x in ast.walk(lp.target) if isinstance(x, ast.Name)}
+        if tnames & set(subst):
+            return None
+        # the loop variable must not capture a name of the argument expressions
+        argnames = {x.id for v in subst.values() for x in ast.walk(v) if isinstance(x, ast.Name)}
+        ren: Dict[str, str] = {}
+        for t in tnames & argnames:
+            self.counter += 1
+            ren[t] = f"{t}__g{self.counter}"
+        rn = _Renamer(ren, {p_: v for p_, v in subst.items()}, call)
+        tgt = rn.visit(copy.deepcopy(lp.target))
+        it = rn.visit(copy.deepcopy(lp.iter))
+        elt = rn.visit(copy.deepcopy(inner[0].value.value))
+        ifs = [simplify_test(rn.visit(copy.deepcopy(cond)))] if cond is not None else []
+        comp = ast.comprehension(target=tgt, iter=it, ifs=ifs, is_async=0)
+        g = _loc(ast.GeneratorExp(elt=elt, generators=[comp]), call)
+        for n in ast.walk(g):
+            if isinstance(n, (ast.expr,)):
+                ast.copy_location(n, call)
+        return g
+
     def _as_expr(self, fn, call, d, recv, bound) -> Optional[ast.expr]:
+        if _has_yield(d):
+            return self._gen_as_genexp(fn, call, d, recv, bound)
         prep = self._prepare(fn, d, call, recv, bound)
         if prep is None:
             return None
